@@ -136,3 +136,15 @@ Theorem C01_expressions_are_what_the_go_code_prints :
     GoNode.Node_ReturnsError (lower_node mo n) = returns_error n.
 Proof. intros mo n. split; [apply assign_expr_tie|split; [apply expr_type_tie|apply returns_error_tie]]. Qed.
 Print Assumptions C01_expressions_are_what_the_go_code_prints.
+
+(** End to end in translated Go code: the text emitted for a simple assignment is
+    model.SimpleField{LHS: lhs.AssignExpr(), RHS: rhs.AssignExpr(), Error: rhs.ReturnsError()}.String()
+    where AssignExpr, ReturnsError and String are the functions translated from /repo on this run. *)
+Theorem C01_assignment_text_end_to_end :
+  forall mo l r,
+    GoGen.Assignment_String
+      (GoGen.SimpleField (GoNode.Node_AssignExpr (lower_node mo l)) (GoNode.Node_AssignExpr (lower_node mo r))
+         (GoNode.Node_ReturnsError (lower_node mo r)))
+    = assignment_string (ASimple l (RNode r) (returns_error r)).
+Proof. exact simple_assignment_text_chain. Qed.
+Print Assumptions C01_assignment_text_end_to_end.
